@@ -1269,7 +1269,7 @@ def sym_list_get(lst, i):
 
 def sym_dict_get(d, k):
     """d[k] for concrete dict d and symbolic int key k: fork once on membership"""
-    keys = [key for key in d if isinstance(key, int) and not isinstance(key, bool) and k.lo <= key <= k.hi]
+    keys = [key for key in d if (isinstance(key, int) and not isinstance(key, bool) and k.lo <= key <= k.hi) or type(key) is SymInt]
     if not keys:
         raise KeyError(k)
     conds = [(k == key) for key in keys]
@@ -1282,7 +1282,7 @@ def sym_dict_get(d, k):
 
 def sym_contains(c, x):
     if isinstance(c, (dict, set, frozenset)):
-        keys = [key for key in c if isinstance(key, int) and not isinstance(key, bool)]
+        keys = [key for key in c if (isinstance(key, int) and not isinstance(key, bool)) or type(key) is SymInt]
         return lor(*[(x == key) for key in keys])
     if isinstance(c, (list, tuple, range)):
         if isinstance(c, range) and c.step == 1:
@@ -1433,6 +1433,14 @@ def sx_getitem(o, k):
     if tk is slice and (type(k.start) is SymInt or type(k.stop) is SymInt or type(k.step) is SymInt):
         return o[_conc_slice(k)]
     return o[k]
+
+
+def sx_setitem(o, k, v):
+    if type(k) is SymInt and isinstance(o, dict):
+        k = k.concretize()
+    elif type(k) is SymChoice and isinstance(o, dict):
+        k = k.concretize()
+    o[k] = v
 
 
 def sx_contains(c, x):
@@ -1838,9 +1846,11 @@ def eval_under(model, x):
         return eval_under(model, x.num) / x.den
     if t is SymText:
         return x.render(lambda v: eval_under(model, v))
-    if t in (list, tuple):
-        return t(eval_under(model, v) for v in x)
-    if t is dict:
+    if isinstance(x, list):
+        return [eval_under(model, v) for v in x]
+    if isinstance(x, tuple):
+        return tuple(eval_under(model, v) for v in x)
+    if isinstance(x, dict):
         return {eval_under(model, k): eval_under(model, v) for k, v in x.items()}
     return x
 
